@@ -2,7 +2,7 @@
 from . import vise, core
 PID = 'C18'
 MC = ['C18_LangReaches']
-TR = ['C18_Lang', 'C18_ExecLookups', 'C18_FlushLookups', 'C18_LangPersisted', 'C18_Translate', 'C18_TranslateStatic', 'C18_PageHasText']
+TR = ['C18_Lang', 'C18_ExecLookups', 'C18_FlushLookups', 'C18_LangPersisted', 'C18_Translate', 'C18_TranslateStatic', 'C18_PageHasText', 'C18_LangKept']
 
 
 def run(tier):
